@@ -56,8 +56,37 @@ class Ctx:
 
     # ------------------------------------------------------------------ function lookup
     def getfn(self, spec):
-        """Exact normalised key, or 're:' pattern that must match exactly one function."""
+        """Exact normalised key; 're:' pattern that must match exactly one function; or a role path
+        `fn@callee[#k][@callee..]`: the closure passed to the (k-th, in block order) call of `callee` inside fn —
+        closures are addressed by the call that receives them, not by their `{closure#N}` index."""
         F = self.F
+        if "@" in spec and not spec.startswith("re:"):
+            parts = spec.split("@")
+            cur = self.getfn(parts[0])
+            for hop in parts[1:]:
+                if cur is None:
+                    return None
+                m = re.match(r"^(.*?)(?:#(\d+))?$", hop)
+                callee, k = m.group(1), int(m.group(2) or 0)
+                rx = pat(callee)
+                cands = []
+                for bi, t in F.calls(cur):
+                    if call_matches(t, rx):
+                        cl = [c for c in t["ncallables"] if c in F.fns and F.fns[c]["kind"] == "Closure"]
+                        if cl:
+                            cands.append((bi, cl[0]))
+                cands.sort()
+                uniq = []
+                for _b, c in cands:
+                    if c not in uniq:
+                        uniq.append(c)
+                if k == 0:
+                    cur = uniq[0] if len(uniq) == 1 else None
+                else:
+                    cur = uniq[k - 1] if len(uniq) >= k else None
+            if cur is not None:
+                self.fn_seen.add(cur)
+            return cur
         if spec in F.fns:
             self.fn_seen.add(spec)
             return spec
